@@ -275,3 +275,280 @@ Print Assumptions C02_run_sequences.
 Print Assumptions C02_run_sequences_concat.
 Print Assumptions C02_outputs_from_named.
 Print Assumptions C02_result_form.
+
+
+(* ==================================================================================================================
+   Q-to-R bridge for the framework model (proofs/QR_bridge_Model.v).
+   The theorems above hold for every [Num] instance, in particular R.  The correspondence run of C02 - and of C05, C07, C08,
+   which evaluate the SAME shared runner run/RunModel.v ([chk_hist_both]); C05's correspondence is therefore covered by the
+   statements below - executes model/ModelSem.v + model/ProxySem.v + model/Kinds.v at F := Q.  For rational parameters and
+   data: run at Q, then embed with Q2R = run at R on the embedded data.  Environments and input maps are related point-wise
+   (no functional extensionality); no shape hypothesis and no side condition (every activation of Kinds.v is exactly
+   computable; there is no table-replayed activation in the scenario language).
+   After this block the cone of this file imports Reals; the theorems above are unaffected (their Print Assumptions
+   output is unchanged: see the lines printed above this block). *)
+From Coq Require Import Reals Qreals.
+From RV Require Import base.NumHom model.ProxySem run.RunModel proofs.QR_bridge_Model.
+
+(* every node kind of the scenario language: forward at R on the embedded (state, hidden memory, input, feedback) is the
+   embedding of forward at Q, including the [None] of a raising node (KBoom at its k-th call, a receiver without feedback) *)
+Theorem C02_Qnode_kinds_embed_in_R (k : @kind Q) (s : list Q) (h : list (list Q)) (x : list Q) (fb : option (list Q)) :
+  kfwd (ekind Q2R k) (qv2r s) (qm2r h) (qv2r x) (option_map qv2r fb)
+  = option_map (fun p => (qv2r (fst p), qm2r (snd p))) (kfwd k s h x fb).
+Proof. exact (e_kfwd Q2R k s h x fb). Qed.
+
+(* the relations, spelled out *)
+Theorem C02_bridge_relations_spelled :
+  (forall (e : @env Q) (eR : @env R), env_rel Q2R e eR <-> forall n, eR n = mkNS (qv2r (st (e n))) (qm2r (hid (e n)))) /\
+  (forall (x : nat -> option (list Q)) (xR : nat -> option (list R)), opt_rel Q2R x xR <-> forall n, xR n = option_map qv2r (x n)) /\
+  (forall (d : @ndesc Q) (dR : @ndesc R), nd_rel Q2R d dR <->
+     nid dR = nid d /\ nfb dR = nfb d /\ odim dR = odim d /\
+     forall s h x fb, nfwd dR (qv2r s) (qm2r h) (qv2r x) (option_map qv2r fb)
+                      = option_map (fun p => (qv2r (fst p), qm2r (snd p))) (nfwd d s h x fb)) /\
+  (forall (m : @model Q) (mR : @model R), m_rel Q2R m mR <->
+     Forall2 (nd_rel Q2R) (ModelSem.order m) (ModelSem.order mR) /\ (forall n, parents mR n = parents m n) /\ outputs mR = outputs m).
+Proof. split; [|split; [|split]]; intros; exact (iff_refl _). Qed.
+
+(* one model step (Model._call -> forward over the execution order, proxies, clamps) *)
+Theorem C02_Qstep_embeds_in_Rstep (m : @model Q) (mR : @model R) forced forcedR ext extR (e : @env Q) (eR : @env R) :
+  m_rel Q2R m mR -> opt_rel Q2R forced forcedR -> opt_rel Q2R ext extR -> env_rel Q2R e eR ->
+  env_rel Q2R (fst (step m forced ext e)) (fst (step mR forcedR extR eR)) /\
+  snd (step mR forcedR extR eR) = snd (step m forced ext e).
+Proof. exact (step_rel Q2R m mR forced forcedR ext extR e eR). Qed.
+
+(* a whole sequence (Model._run): final environment, every emitted row of every output node, success flag *)
+Theorem C02_Qrun_embeds_in_Rrun (m : @model Q) (mR : @model R) steps stepsR (e : @env Q) (eR : @env R) :
+  m_rel Q2R m mR -> steps_rel Q2R steps stepsR -> env_rel Q2R e eR ->
+  env_rel Q2R (fst (fst (run_steps m steps e))) (fst (fst (run_steps mR stepsR eR))) /\
+  snd (fst (run_steps mR stepsR eR)) = map qm2r (snd (fst (run_steps m steps e))) /\
+  snd (run_steps mR stepsR eR) = snd (run_steps m steps e).
+Proof. intros Hm Hs He. exact (run_steps_rel Q2R m mR steps stepsR Hm Hs e eR He). Qed.
+
+(* the Q-model and the R-model the runner / the verdict theorem build from one scenario are related *)
+Theorem C02_scenario_models_related (nodes : list snode) (sm : smodel) :
+  m_rel Q2R (to_model nodes sm) (to_modelR nodes sm) /\ env_rel Q2R (init_env nodes) (init_envR nodes).
+Proof. exact (conj (to_model_rel nodes sm) (init_env_rel nodes)). Qed.
+
+(* the verdict of the correspondence runner is a statement about the R-instance: [chk_hist_both ... = true] (vm_compute at Q)
+   implies that the history executed by the R-model on the embedded data, from the embedded initial environment, has operation
+   by operation the observed success flag, outputs within 1e-9*max(1,|model|) of the observed outputs when it succeeds and
+   node states within that tolerance of the observed ones (tidy model AND low-level proxy / clamp model, the latter with the
+   observed at-rest flag) *)
+Theorem C02_chk_hist_both_is_about_R_model (nodes : list snode) (models : list smodel) (l : list (op * obs)) :
+  chk_hist_both nodes models l = true ->
+  topo_ok models = true /\ hist_okR nodes models l (init_envR nodes) /\ hist_okR_ll nodes models l (init_envR_ll nodes).
+Proof. exact (chk_hist_both_is_about_R_model nodes models l). Qed.
+(* ... where [hist_okR] reads, for a non-empty history: *)
+Theorem C02_hist_okR_spelled (nodes : list snode) (models : list smodel) (o : op) (ob : obs) rest (e : @env R) :
+  hist_okR nodes models ((o, ob) :: rest) e <->
+  (let r := run_oneR nodes models o e in
+   snd r = ook ob /\
+   (snd r = true -> Forall2 (Forall2 (Forall2 rclose)) (snd (fst r)) (map qm2r (oouts ob))) /\
+   Forall (fun p => Forall2 rclose (st (fst (fst r) (fst p))) (qv2r (snd p))) (ostates ob) /\
+   hist_okR nodes models rest (fst (fst r))).
+Proof. exact (iff_refl _). Qed.
+
+(* non-vacuity: affine -> (Delay, Reservoir with relu and per-unit leak -> Ridge forward), two timesteps; the runner answers
+   true on the exact outputs, hence the R-model history is within the tolerance of them *)
+Definition exB_nodes : list snode :=
+  [mkSN 0 (KFun 2 (1#2))%Q None 1 [];
+   mkSN 1 (KRes [[1#2; -1#4]; [3#4; 1#8]] [[2#1]; [-1#2]] [1#8; -1#8] [1#2; 3#4] ARelu)%Q None 2 [];
+   mkSN 2 (KLin [[1#1; -1#1]; [1#2; 2#1]] [1#4; 0#1])%Q None 2 [];
+   mkSN 3 KDelay None 1 [[7#1]]%Q].
+Definition exB_models : list smodel := [mkSM [0; 3; 1; 2] [(1, [0]); (3, [0]); (2, [1])] [2; 3]].
+Definition exB_hist : list (op * obs) :=
+  [(OpRun 0 true false [] [[(0%nat, [1#2])]; [(0%nat, [-1#1])]]%Q false [],
+    mkObs true [[[29#16; -25#16]; [7#1]]; [[873#512; 245#128]; [3#2]]]%Q
+          [(0%nat, [-3#2]); (1%nat, [25#32; 345#256]); (2%nat, [873#512; 245#128]); (3%nat, [3#2])]%Q (Some true))].
+Example C02_bridge_example :
+  chk_hist_both exB_nodes exB_models exB_hist = true /\
+  hist_okR exB_nodes exB_models exB_hist (init_envR exB_nodes) /\ hist_okR_ll exB_nodes exB_models exB_hist (init_envR_ll exB_nodes).
+Proof.
+  assert (E : chk_hist_both exB_nodes exB_models exB_hist = true) by (vm_compute; reflexivity).
+  split; [exact E | apply (C02_chk_hist_both_is_about_R_model _ _ _ E)].
+Qed.
+
+Print Assumptions C02_Qnode_kinds_embed_in_R.
+Print Assumptions C02_bridge_relations_spelled.
+Print Assumptions C02_Qstep_embeds_in_Rstep.
+Print Assumptions C02_Qrun_embeds_in_Rrun.
+Print Assumptions C02_scenario_models_related.
+Print Assumptions C02_chk_hist_both_is_about_R_model.
+Print Assumptions C02_hist_okR_spelled.
+
+
+(* ==================================================================================================================
+   Tie (T) for the data dispatcher and the forward pass (gen/Gen_dispatch.v, regenerated from the CURRENT source by
+   tools/vlib/py2coq_dispatch.py on every run; proofs/Gen_dispatch_eq.v).  The class DataDispatcher of
+   reservoirpy/utils/graphflow.py (__init__, _check_inputs, get, __getitem__, load - the latter at Y = None, the call `forward`
+   makes) and forward(model, x) of reservoirpy/model.py are translated over base/PyColl.v, PyColl2.v, PyColl3.v; node states and
+   node calls are parameters ([node_state], [base_call]), names are node ids.  The generated definitions are proved equal to
+   closed forms and to model/ModelSem.v, so that C02_forward_is_solution above is a statement about the translated code. *)
+From RV Require Import base.PyColl base.PyColl2 base.PyColl3 gen.Gen_dispatch proofs.Gen_dispatch_eq.
+
+Section C02_generated.
+Variable datum : Type.
+Variable world : Type.
+Variable node_state : world -> node -> datum.
+Notation obj := (GenDispatch.DataDispatcher datum).
+Notation mk := (GenDispatch.mkDataDispatcher datum).
+
+(* which datum reaches which node: an array input reaches exactly the entry nodes; a mapping reaches every node of the model it
+   names, entry node or not *)
+Theorem C02_generated_input_routing (inputs nodes : list node) (a : datum) (m : pymap datum) (n : node) :
+  ext_of datum inputs nodes (InArr a) n = (if py_in n inputs then Some a else None) /\
+  ext_of datum inputs nodes (InMap m) n = (if py_in n nodes then m n else None) /\
+  inputs_named datum inputs (InArr a) = true /\
+  inputs_named datum inputs (InMap m) = forallb (fun k => negb (is_none (m k))) inputs.
+Proof. repeat split. Qed.
+
+(* DataDispatcher.load(X): refused with KeyError iff X is a mapping that does not name every entry node; otherwise only `_parents`
+   and `_teachers` change (whatever they held before), `_teachers` is empty, and `_parents` holds for EVERY node n its parents
+   in the order of find_parents_and_children FOLLOWED by the datum that reaches n *)
+Theorem C02_generated_load (ns ts ins : list node) (P : ddict node node) fp tc (X : pyinput datum) :
+  GenDispatch.DataDispatcher_load datum (mk ns ts ins P fp tc) (Some X) =
+    (if inputs_named datum ins X then Val (mk ns ts ins P (loaded datum P ins ns X) []) else Exc KeyError) /\
+  (NoDup ins -> NoDup ns -> forall n,
+   dd_get (loaded datum P ins ns X) n [] = map SrcNode (dd_get P n []) ++ opt_list (option_map SrcData (ext_of datum ins ns X n))).
+Proof.
+  split; [exact (load_spec datum (mk ns ts ins P fp tc) X)|].
+  intros Hi Hn n. apply loaded_get. destruct X; assumption.
+Qed.
+
+(* DataDispatcher.get(n) / dispatcher[n]: the parents' CURRENT states followed by the external datum, handed over BARE when there is
+   exactly one source and as a list otherwise; never raises *)
+Theorem C02_generated_get (self : obj) (w : world) (n : node) :
+  GenDispatch.DataDispatcher___getitem__ datum world node_state self w n = GenDispatch.DataDispatcher_get datum world node_state self w n /\
+  GenDispatch.DataDispatcher_get datum world node_state self w n =
+    Val (unwrap datum (map (src_val datum world node_state w) (dd_get (GenDispatch.f_parents datum self) n [])),
+         pd_lookup (GenDispatch.f_teachers datum self) n) /\
+  (forall a, unwrap datum [a] = XBare a) /\ (forall l, length l <> 1 -> unwrap datum l = XList l) /\
+  (forall p a, src_val datum world node_state w (SrcNode p) = node_state w p /\ src_val datum world node_state w (SrcData a) = a).
+Proof.
+  split; [exact (getitem_spec datum world node_state self w n)|]. split; [exact (get_spec datum world node_state self w n)|].
+  split; [reflexivity|]. split; [|split; reflexivity]. intros [|a [|b l]] Hl; try reflexivity. exfalso; apply Hl; reflexivity.
+Qed.
+
+(* forward(model, x): the dispatcher is loaded with x, then every node of model.nodes is called ONCE, left to right, each on `get`
+   of the world the calls before it left; the value is the output nodes' states after the last call *)
+Theorem C02_generated_forward_calls_each_node_in_order
+        (base_call : node -> xval datum -> world -> py world) (nodes inputs outputs trainables : list node) (edges : list edge)
+        (sorted_by_name : list edge -> list edge) (w : world) (X : pyinput datum) :
+  GenDispatch.forward datum world node_state base_call nodes inputs outputs trainables edges sorted_by_name w X =
+    (if inputs_named datum inputs X
+     then py_bind (calls datum world node_state base_call (loaded datum (parents_dict edges sorted_by_name) inputs nodes X) nodes w)
+                  (fun w' => Val (w', map (node_state w') outputs))
+     else Exc KeyError) /\
+  (forall fp n r w0, calls datum world node_state base_call fp (n :: r) w0 =
+     py_bind (base_call n (unwrap datum (map (src_val datum world node_state w0) (dd_get fp n []))) w0)
+             (calls datum world node_state base_call fp r)) /\
+  (forall fp w0, calls datum world node_state base_call fp [] w0 = Val w0).
+Proof.
+  split; [exact (forward_spec datum world node_state base_call nodes inputs outputs trainables edges sorted_by_name w X)|].
+  split; reflexivity.
+Qed.
+End C02_generated.
+
+Section C02_generated_model.
+Context {F : Type} `{Num F}.
+Notation vec := (list F).
+Notation env := (@env F).
+Notation model := (@model F).
+
+(* The translated forward pass, run on the hand model's environments - [node_state e n := st (e n)], `_base.call(n, x)` := one
+   [call_node] of the node named n on the flattened input ([sem_call]; [flat (XBare v) = v], [flat (XList l) = concat l]: the hand
+   model hands a node the side-by-side concatenation of its sources) - IS ModelSem.forward with the input map [ext_of X], for every
+   model whose node list and entry list have no repeated node and whose fan-in order is the dispatcher's.  ([gen_result]: success
+   gives the environment and the output states; the hand model's failing run becomes an exception, which carries no environment.) *)
+Theorem C02_generated_forward_eq_model (m : model) (inputs trainables : list node) (edges : list edge)
+        (sorted_by_name : list edge -> list edge) prev clamp (X : pyinput vec) (e : env) :
+  NoDup (map nid (ModelSem.order m)) -> NoDup inputs ->
+  (forall n, In n (map nid (ModelSem.order m)) -> parents m n = dd_get (parents_dict edges sorted_by_name) n []) ->
+  GenDispatch.forward vec env st_of (sem_call m prev clamp) (map nid (ModelSem.order m)) inputs (outputs m) trainables edges sorted_by_name e X
+  = (if inputs_named vec inputs X
+     then gen_result m (forward m prev clamp (ext_of vec inputs (map nid (ModelSem.order m)) X) e)
+     else Exc KeyError).
+Proof. exact (gen_forward_eq m inputs edges sorted_by_name trainables prev clamp X e). Qed.
+
+(* the data handed to node n by the translated `get` after the translated `load`, flattened, is the hand model's [gather] *)
+Theorem C02_generated_get_is_gather (m : model) (inputs : list node) (edges : list edge) (sorted_by_name : list edge -> list edge)
+        (X : pyinput vec) (e : env) n :
+  NoDup (visited vec inputs (map nid (ModelSem.order m)) X) -> parents m n = dd_get (parents_dict edges sorted_by_name) n [] ->
+  flat (unwrap vec (sources vec env st_of (loaded vec (parents_dict edges sorted_by_name) inputs (map nid (ModelSem.order m)) X) e n))
+  = gather m e (ext_of vec inputs (map nid (ModelSem.order m)) X) n.
+Proof. exact (sources_gather m inputs edges sorted_by_name X e n). Qed.
+
+(* ... hence C02_forward_is_solution is a statement about the translated forward pass: when it succeeds on a topologically ordered
+   model, the environment it leaves solves the graph's equations and the value it returns is the output nodes' new states *)
+Theorem C02_generated_forward_is_solution (m : model) (inputs trainables : list node) (edges : list edge)
+        (sorted_by_name : list edge -> list edge) prev clamp (X : pyinput vec) (e0 e' : env) outs :
+  well_formed m -> NoDup inputs ->
+  (forall n, In n (map nid (ModelSem.order m)) -> parents m n = dd_get (parents_dict edges sorted_by_name) n []) ->
+  GenDispatch.forward vec env st_of (sem_call m prev clamp) (map nid (ModelSem.order m)) inputs (outputs m) trainables edges sorted_by_name e0 X
+    = Val (e', outs) ->
+  is_solution m prev clamp (ext_of vec inputs (map nid (ModelSem.order m)) X) e0 e' /\ outs = out_states m e'.
+Proof. exact (gen_forward_is_solution m inputs edges sorted_by_name trainables prev clamp X e0 e' outs). Qed.
+End C02_generated_model.
+
+(* Non-vacuity: the translated code executed on the diamond ex_model above (edges 0->1, 0->2, 1->3, 2->3, entry 0, exit 3) gives
+   the values of C02_example; `get` hands node 3 a list of its two sources and nodes 1, 0 one bare array; a mapping naming the
+   non-entry node 2 reaches it (after its parent's state); a mapping that does not name the entry node is refused. *)
+Definition exG_edges : list edge := [(0, 1); (0, 2); (1, 3); (2, 3)].
+Definition exG_forward (X : pyinput (list Q)) :=
+  GenDispatch.forward (list Q) (@env Q) st_of (sem_call ex_model ex_env (fun _ => None)) (map nid (ModelSem.order ex_model)) [0]
+                      (outputs ex_model) [] exG_edges (fun l => l) ex_env X.
+Definition exG_get (X : pyinput (list Q)) (n : node) :=
+  py_bind (GenDispatch.DataDispatcher___init__ (list Q) (map nid (ModelSem.order ex_model)) [0] [] exG_edges (fun l => l)) (fun d0 =>
+  py_bind (GenDispatch.DataDispatcher_load (list Q) d0 (Some X)) (fun d =>
+  GenDispatch.DataDispatcher___getitem__ (list Q) (@env Q) st_of d ex_env n)).
+Example C02_generated_example :
+  (forall n, In n (map nid (ModelSem.order ex_model)) -> parents ex_model n = dd_get (parents_dict exG_edges (fun l => l)) n []) /\
+  match exG_forward (InArr [3%Q]) with Val (e', outs) => Some (st (e' 1), st (e' 3), outs) | _ => None end
+    = Some ([12%Q], [12%Q; (-7)%Q], [[12%Q; (-7)%Q]]) /\
+  match exG_forward (InMap (fun n => match n with 0 => Some [3%Q] | 2 => Some [1%Q] | _ => None end)) with
+  | Val (e', outs) => Some outs | _ => None end = Some [[12%Q; (-7)%Q; (-1)%Q]] /\
+  exG_forward (InMap (fun n => match n with 2 => Some [1%Q] | _ => None end)) = Exc KeyError /\
+  exG_get (InArr [3%Q]) 3 = Val (XList [[5%Q]; [0%Q]], None) /\
+  exG_get (InArr [3%Q]) 1 = Val (XBare [0%Q], None) /\ exG_get (InArr [3%Q]) 0 = Val (XBare [3%Q], None) /\
+  exG_get (InMap (fun n => match n with 0 => Some [3%Q] | 2 => Some [1%Q] | _ => None end)) 2 = Val (XList [[0%Q]; [1%Q]], None).
+Proof.
+  split; [intros n [E|[E|[E|[E|[]]]]]; subst n; reflexivity|].
+  repeat split; vm_compute; reflexivity.
+Qed.
+
+Print Assumptions C02_generated_input_routing.
+Print Assumptions C02_generated_load.
+Print Assumptions C02_generated_get.
+Print Assumptions C02_generated_forward_calls_each_node_in_order.
+Print Assumptions C02_generated_forward_eq_model.
+Print Assumptions C02_generated_get_is_gather.
+Print Assumptions C02_generated_forward_is_solution.
+
+(* the dispatcher's fan-in order, from the translated find_parents_and_children: the parents of n are the senders of the edges
+   into n, in the order of the name-sorted edge list ([sorted_by_name]: `sorted(edges, key=lambda x: x[0].name + x[1].name)`) *)
+Theorem C02_generated_parent_order (edges : list edge) (sorted_by_name : list edge -> list edge) (n : node) :
+  dd_get (parents_dict edges sorted_by_name) n [] = map fst (filter (fun ed => Nat.eqb (snd ed) n) (sorted_by_name edges)).
+Proof. exact (parents_dict_spec edges sorted_by_name n). Qed.
+
+(* the two input forms, read directly in the hand model: a MAPPING is ModelSem's external input map itself (node n receives what
+   the mapping holds under its name; refused iff an entry node is not named); an ARRAY is the map that gives the array to the entry
+   nodes and nothing to any other node *)
+Theorem C02_generated_forward_input_forms {F : Type} `{Num F} (m : @model F) (inputs trainables : list node) (edges : list edge)
+        (sorted_by_name : list edge -> list edge) prev clamp (e : @env F) :
+  NoDup (map nid (ModelSem.order m)) -> NoDup inputs ->
+  (forall n, In n (map nid (ModelSem.order m)) -> parents m n = dd_get (parents_dict edges sorted_by_name) n []) ->
+  (forall mp : pymap (list F),
+     GenDispatch.forward (list F) (@env F) st_of (sem_call m prev clamp) (map nid (ModelSem.order m)) inputs (outputs m) trainables edges
+                         sorted_by_name e (InMap mp)
+     = if forallb (fun k => negb (is_none (mp k))) inputs then gen_result m (forward m prev clamp mp e) else Exc KeyError) /\
+  (forall a : list F,
+     GenDispatch.forward (list F) (@env F) st_of (sem_call m prev clamp) (map nid (ModelSem.order m)) inputs (outputs m) trainables edges
+                         sorted_by_name e (InArr a)
+     = gen_result m (forward m prev clamp (fun n => if py_in n inputs then Some a else None) e)).
+Proof.
+  intros Hn Hi Hp. split; [intros mp; exact (gen_forward_eq_mapping m inputs edges sorted_by_name trainables prev clamp mp e Hn Hi Hp)|
+                           intros a; exact (gen_forward_eq_array m inputs edges sorted_by_name trainables prev clamp a e Hn Hi Hp)].
+Qed.
+
+Print Assumptions C02_generated_parent_order.
+Print Assumptions C02_generated_forward_input_forms.
